@@ -465,7 +465,9 @@ func TestC04(t *testing.T) {
 		"route prefix of the rule (every rule also matches <prefix>/** with encoded slashes allowed): sub path, encoded slashes, encoded and raw non-ASCII, encoded '%' and '?', sub-delims, and - through the " +
 		"Envoy entry point only, whose client sends every second target with the query inside the path attribute as Envoy does - a literal '%', broken and truncated escapes; characters inside reference " +
 		"tokens, sessions and junk values (valid and rejected ones; the remote system knows exactly the minted byte string) that a decoder may refuse or rewrite: '%' at the end / before non-hex / truncated, " +
-		"valid escapes, '+', '=', quotes (not in cookies). Order-sensitive part, run first against the fresh instances: for a sub-pool of chains in which a rejection must end the authentication, the whole class catalogue " +
+		"valid escapes, '+', '=', quotes (not in cookies). Correctly signed JWTs and introspection responses whose nbf / exp is a number far outside of every integer range (1e19, 2^63, 1E+25, " +
+		"30 digits, the largest float64, 1e400, 1e999999; exp: their negatives): found, never valid. The credential query parameter sent twice (second occurrence empty, the same value, or - rejected " +
+		"credentials - another rejected value of the same kind; right after the first or apart from it). Order-sensitive part, run first against the fresh instances: for a sub-pool of chains in which a rejection must end the authentication, the whole class catalogue " +
 		"of every authenticator (every valid / rejected / endpoint-failing / malformed class, a status code, one value of every foreign kind) plus the random mix, sent one request at a time in " +
 		"seeded random order, twice in two orders, judged by the same per-request model (what an instance was asked before must not matter). Oracle: documentation-based " +
 		"3-way classification per authenticator + chain semantics of the statement; compared with status, echoed subject and the recorded sequence of executed authenticators. " +
@@ -483,6 +485,9 @@ func TestC04(t *testing.T) {
 			"and whatever the path matched by the rule looks like",
 		"a credential value is an opaque byte string: header, cookie (RFC 6265 cookie-octets) and JSON values are taken as they are, query and form values are percent-encoded by the client; "+
 			"the remote system accepts exactly the byte string that was issued",
+		"a request whose query names the credential parameter more than once carries credentials of that kind: the first occurrence counts (a valid value repeated unchanged or empty is valid, "+
+			"a rejected one followed by an empty, equal or another rejected value is rejected), it is never a request without credentials",
+		"a token whose nbf lies beyond / whose exp lies below every representable date is not valid now, whatever number type an implementation uses: found and rejected",
 		"a request target net/http refuses (broken percent escape in the path) cannot reach the HTTP decision service: such paths are presented to the Envoy entry point only",
 		"parameters of a Content-Type (well-formed or not) and a repeated Content-Type line with the same media type do not make a form/JSON body unusable; "+
 			"a media type written with upper case letters leaves open whether the body is usable (both readings allowed)")
@@ -668,6 +673,9 @@ func TestC04(t *testing.T) {
 		r.Require("body_credentials_with_other_content_type_"+v, r.Counter("body_credentials_with_other_content_type_"+v), 30)
 	}
 	r.Require("metadata_discovery_issuer_breaks_url", r.Counter("metadata_discovery_issuer_breaks_url"), 20)
+	r.Require("date_out_of_range_rejections_before_another_authenticator", r.Counter("date_out_of_range_rejections_before_another_authenticator"), 20)
+	r.Require("query_parameter_repeated_rejections_before_another_authenticator", r.Counter("query_parameter_repeated_rejections_before_another_authenticator"), 20)
+	r.Require("query_parameter_repeated_accept", r.Counter("query_parameter_repeated_accept"), 5)
 	r.Require("requests_"+entryEnvoy, r.Counter("requests_"+entryEnvoy), r.Counter("requests_"+entryHTTP))
 	for _, ep := range []string{entryHTTP, entryEnvoy} {
 		for _, v := range []string{"accept", "reject"} {
@@ -752,6 +760,20 @@ func runCase(r *core.Run, st *stats, eps []entry, c chain, lr lreq, seq *sequenc
 				}
 				if it, _ := lr.at(v.Slot); it.Sep != "" {
 					r.Count("header_credentials_with_several_blanks_after_scheme_"+v.Verdict.String(), 1)
+				}
+				if v.Repeat != "" {
+					r.Count("query_parameter_repeated_"+v.Repeat+"_"+v.Verdict.String(), 1)
+					r.Count("query_parameter_repeated_"+tn+"_"+v.Verdict.String(), 1)
+					r.Count("query_parameter_repeated_"+v.Verdict.String(), 1)
+					if v.Verdict == vReject && i < len(c.Elems)-1 && !c.Elems[i].fallbackAllowed() {
+						r.Count("query_parameter_repeated_rejections_before_another_authenticator", 1)
+					}
+				}
+				if strings.HasSuffix(v.Seen, "outofrange") && v.Verdict == vReject {
+					r.Count("date_out_of_range_"+tn+"_"+v.Seen, 1)
+					if i < len(c.Elems)-1 && !c.Elems[i].fallbackAllowed() {
+						r.Count("date_out_of_range_rejections_before_another_authenticator", 1)
+					}
 				}
 				// the dimensions that do not belong to the credentials: what the authenticator reading this location has to
 				// decide for which method, below which path, with which characters in the value
